@@ -140,6 +140,64 @@ theorem editedTo_editedTo (n : Id) (a b : List Id) (s : St) :
     rw [editedTo_eq n a s]
     simp only [hF, Bool.false_eq_true, if_false, setKids_setKids]
 
+theorem deleteKid_eq_editedTo (n c : Id) (s : St) :
+    deleteKid (Flags.goodWith b1 b2 b3) n c s = editedTo n (((abs s).kids n).erase c) s := rfl
+
+theorem tag_editedTo (n : Id) (ks : List Id) (s : St) (m : Id) :
+    (abs (editedTo n ks s)).tag m = (abs s).tag m := by
+  show (Abs.mk (editedTo n ks s).heap (editedTo n ks s).roots).tag m = (Abs.mk s.heap s.roots).tag m
+  rw [editedTo_heap]; exact tag_setKids _ _ _ _ _ _
+
+theorem kids_editedTo_self {n : Nat} (ks : List Id) (s : St) (hn : n < s.heap.length) :
+    (abs (editedTo n ks s)).kids n = ks := by
+  show (Abs.mk (editedTo n ks s).heap (editedTo n ks s).roots).kids n = ks
+  rw [editedTo_heap]; exact kids_setKids_self _ _ _ _ hn
+
+theorem deleteLoop_from_edited (s : St) {n : Nat} (hn : n < s.heap.length) (t : Str) :
+    ∀ (xs ks : List Id),
+      xs.foldl (fun u c => if (abs u).tag c == t then deleteKid (Flags.goodWith b1 b2 b3) n c u else u)
+          (editedTo n ks s) =
+        editedTo n ((xs.filter fun c => (abs s).tag c == t).foldl List.erase ks) s
+  | [], _ => rfl
+  | x :: xs, ks => by
+    simp only [List.foldl_cons, tag_editedTo, List.filter_cons]
+    cases hp : (abs s).tag x == t with
+    | true =>
+      simp only [if_true, List.foldl_cons]
+      rw [deleteKid_eq_editedTo, kids_editedTo_self ks s hn, editedTo_editedTo]
+      exact deleteLoop_from_edited s hn t xs (ks.erase x)
+    | false =>
+      simp only [Bool.false_eq_true, if_false]
+      exact deleteLoop_from_edited s hn t xs ks
+
+theorem deleteLoop_closed (s : St) {n : Nat} (hn : n < s.heap.length) (t : Str) :
+    ∀ (xs : List Id),
+      xs.foldl (fun u c => if (abs u).tag c == t then deleteKid (Flags.goodWith b1 b2 b3) n c u else u) s =
+        if (xs.any fun c => (abs s).tag c == t) = true then
+          editedTo n ((xs.filter fun c => (abs s).tag c == t).foldl List.erase ((abs s).kids n)) s
+        else s
+  | [] => rfl
+  | x :: xs => by
+    simp only [List.foldl_cons, List.any_cons, List.filter_cons]
+    cases hp : (abs s).tag x == t with
+    | true =>
+      simp only [if_true, Bool.true_or, List.foldl_cons]
+      rw [deleteKid_eq_editedTo]
+      exact deleteLoop_from_edited s hn t xs _
+    | false =>
+      simp only [Bool.false_eq_true, if_false, Bool.false_or]
+      exact deleteLoop_closed s hn t xs
+
+/-- **`DeleteNodesWithTag(n, t)` of the model is the loop of the source**: one `n.DeleteNode(c)` — the
+    model's own `deleteNode` step, resets included — for every child `c` of a copy of the child list
+    whose tag is `t`, in order. -/
+theorem deleteKidsWithTag_is_loop (s : St) {n : Nat} (hn : n < s.heap.length) (t : Str) :
+    deleteKidsWithTag (Flags.goodWith b1 b2 b3) n t s = deleteLoop (Flags.goodWith b1 b2 b3) n t s := by
+  unfold deleteLoop
+  rw [deleteLoop_closed s hn t]
+  unfold deleteKidsWithTag
+  rfl
+
 /-! ## the events of an individual -/
 
 /-- `Births()`, `Baptisms()`, `Deaths()`, `Burials()` answer a sub-sequence of `AllEvents()`, for every
